@@ -41,8 +41,63 @@ def _has_call(n, pred) -> bool:
     return any(isinstance(c, ast.Call) and pred(c) for e in own_exprs(n) for c in walk_scope(e))
 
 
+def rule_membership_tables(ctx: Ctx) -> None:
+    """C05-2: every table that says which partition a component lives in covers entities, sources and probes alike (a cross-partition
+    event may target a source or a probe; the coordinator drops events whose target it cannot place)."""
+    prog = ctx.prog
+    n = 0
+    for rel in (PSIM, COORD, ROUT, VAL):
+        for fn in prog.module(rel).all_functions:
+            kinds = set()
+            keyed = False
+            for x in walk_scope(fn.node):
+                it = None
+                if isinstance(x, ast.For):
+                    it = x.iter
+                elif isinstance(x, ast.comprehension):
+                    it = x.iter
+                if it is not None and isinstance(it, ast.Attribute) and it.attr in ("entities", "sources", "probes") and isinstance(it.value, ast.Name):
+                    var = path_of(x.target)
+                    scope = x.body if isinstance(x, ast.For) else None
+                    if scope is None:
+                        kinds.add(it.attr)  # comprehension: the element expression is the table entry
+                    elif any(isinstance(c, ast.Call) and path_of(c.func) == "id" and [path_of(a) for a in c.args] == [var] for st in scope for c in ast.walk(st)):
+                        kinds.add(it.attr)
+                if isinstance(x, ast.Call) and path_of(x.func) == "id":
+                    keyed = True
+            # only tables that leave the function (returned, or handed to the coordinator / a router factory): a table used locally to validate
+            # the configuration places nothing
+            tables = set()
+            for x in walk_scope(fn.node):
+                if isinstance(x, (ast.Assign, ast.AnnAssign)):
+                    t = x.targets[0] if isinstance(x, ast.Assign) else x.target
+                    v = x.value
+                    if isinstance(t, ast.Subscript) and isinstance(t.slice, ast.Call) and path_of(t.slice.func) == "id":
+                        tables.add(path_of(t.value))
+                    if isinstance(t, ast.Name) and v is not None and any(isinstance(c, ast.Call) and path_of(c.func) == "id" for c in ast.walk(v)) and isinstance(v, (ast.DictComp, ast.SetComp, ast.Dict, ast.Set)):
+                        tables.add(t.id)
+                if isinstance(x, ast.Call) and isinstance(x.func, ast.Attribute) and x.func.attr in ("add", "update") and any(isinstance(c, ast.Call) and path_of(c.func) == "id" for a in x.args for c in ast.walk(a)):
+                    tables.add(path_of(x.func.value))
+            escapes = False
+            for x in walk_scope(fn.node):
+                if isinstance(x, ast.Return) and x.value is not None and any(path_of(y) in tables for y in ast.walk(x.value)):
+                    escapes = True
+                if isinstance(x, ast.Call) and not (isinstance(x.func, ast.Attribute) and path_of(x.func.value) in tables):
+                    for a in list(x.args) + [k.value for k in x.keywords]:
+                        if path_of(a) in tables:
+                            escapes = True
+            if (rel, fn.qual) == (VAL, "validate_partitions"):
+                continue  # named exemption: its table only serves the "entity referenced across partitions without a link" validation of *entities*; it places no event
+            if "entities" in kinds and keyed and escapes:
+                n += 1
+                ctx.ob("C05-2", "G4", fn, "membership covers entities, sources, probes", kinds == {"entities", "sources", "probes"},
+                       f"{fn.qual} builds a component→partition table by identity; it iterates {sorted(kinds)} of each partition (all three kinds are needed)")
+    need(n >= 2, f"C05-2: expected >= 2 partition membership tables, found {n}")
+
+
 def run(ctx: Ctx) -> None:
     prog = ctx.prog
+    ctx.guarded(rule_membership_tables)
     # ---- C05-1 horizon of the window loop
     L = LoopInfo(ctx, prog.func(SIM, "Simulation._execute_until"))
     _rule_horizon(ctx, L, rule="C05-1")
@@ -315,6 +370,7 @@ def run(ctx: Ctx) -> None:
 
 
 MUTANTS = [
+    ("coordinator-map-omits-sources-and-probes", PSIM, "                entity_to_partition[id(probe)] = p.name\n\n        coordinator = WindowedCoordinator(", "                pass\n\n        coordinator = WindowedCoordinator(", "C05-2"),
     ("override-calls-missing-method", COORD, "                    event.time = send_time + link.latency.get_latency(send_time)", "                    event.time = send_time + link.latency.sample()", "C05-2"),
     ("override-skips-min-latency-check", COORD, "                    event.time = send_time + link.latency.get_latency(send_time)\n\n", "                    event.time = send_time + link.latency.get_latency(send_time)\n                    self._simulations[dest_name].schedule(event)\n                    delivered += 1\n                    continue\n\n", "C05-2"),
     ("route-linked-also-local", ROUT, "                outbox.append((event, current_time))", "                outbox.append((event, current_time))\n                local.append(event)", "C05-2"),
